@@ -12,7 +12,8 @@ package main
 //                                   the in-memory store is dropped (ResetMetricsSegStore_TestOnly) and the rotated
 //                                   segments are made queryable (PopulateMetricsMetadataForTheFile_TestOnly):
 //                                   the recipe of the repo's own e2e test = graceful stop + start
-//   q <start> <end> <hex promql>    ConvertPromQLToMetricsQuery + ExecuteMetricsQuery; prints one JSON line
+//   q <start> <end> <hex promql>    ConvertPromQLToMetricsQuery + ExecuteMetricsQuery (a binary operator between vectors:
+//                                   ExecuteMultipleMetricsQuery, as the PromQL HTTP handlers do); prints one JSON line
 // stdout: one JSON line per q: {"results":{"<hex series id>":{"<ts>":"<16 hex digits of the float64>"}},"errs":[…],"err":"…"}
 //         and one line {"ingesterr":"…","dp":<index of the dp command>} per rejected dp, {"roterr":"…"} per failed rotation.
 // Data still in the open (unrotated) block is found by the same query entry point: query.ApplyMetricsQuery
@@ -30,12 +31,15 @@ import (
 	"strings"
 
 	"github.com/golang/snappy"
+	dtu "github.com/siglens/siglens/pkg/common/dtypeutils"
 	"github.com/siglens/siglens/pkg/config"
 	promingest "github.com/siglens/siglens/pkg/integrations/prometheus/ingest"
 	"github.com/siglens/siglens/pkg/integrations/prometheus/promql"
 	"github.com/siglens/siglens/pkg/segment"
 	"github.com/siglens/siglens/pkg/segment/memory/limit"
 	"github.com/siglens/siglens/pkg/segment/query"
+	"github.com/siglens/siglens/pkg/segment/results/mresults"
+	"github.com/siglens/siglens/pkg/segment/structs"
 	sutils "github.com/siglens/siglens/pkg/segment/utils"
 	"github.com/siglens/siglens/pkg/segment/writer"
 	"github.com/siglens/siglens/pkg/segment/writer/metrics"
@@ -156,14 +160,28 @@ func mWorkerMain() {
 			end, _ := strconv.ParseUint(f[2], 10, 32)
 			pq, _ := hex.DecodeString(f[3])
 			res := map[string]interface{}{}
-			reqs, _, _, err := promql.ConvertPromQLToMetricsQuery(string(pq), uint32(start), uint32(end), 0)
+			reqs, _, ops, err := promql.ConvertPromQLToMetricsQuery(string(pq), uint32(start), uint32(end), 0)
 			if err != nil {
 				res["err"] = "parse: " + err.Error()
-			} else if len(reqs) != 1 {
-				res["err"] = fmt.Sprintf("parse: %d metric query requests", len(reqs))
+			} else if len(reqs) == 0 || (len(reqs) != 1 && len(ops) == 0) {
+				res["err"] = fmt.Sprintf("parse: %d metric query requests, %d operations", len(reqs), len(ops))
 			} else {
-				qid++
-				mres := segment.ExecuteMetricsQuery(&reqs[0].MetricsQuery, &reqs[0].TimeRange, qid)
+				qid += 10
+				var mres *mresults.MetricsResult
+				if len(ops) == 0 {
+					mres = segment.ExecuteMetricsQuery(&reqs[0].MetricsQuery, &reqs[0].TimeRange, qid)
+				} else {
+					// a binary operator between vectors: the way the PromQL HTTP handlers run it (metricsSearchHandler.go)
+					hashList := make([]uint64, 0, len(reqs))
+					mQueries := make([]*structs.MetricsQuery, 0, len(reqs))
+					var timeRange *dtu.MetricsTimeRange
+					for i := range reqs {
+						hashList = append(hashList, reqs[i].MetricsQuery.QueryHash)
+						mQueries = append(mQueries, &reqs[i].MetricsQuery)
+						timeRange = &reqs[i].TimeRange
+					}
+					mres = segment.ExecuteMultipleMetricsQuery(hashList, mQueries, ops, timeRange, qid, false)
+				}
 				if mres == nil {
 					res["err"] = "nil result"
 				} else {
